@@ -142,4 +142,16 @@ CLAIMS["C14"] = {
             "feature build) and compares every observation with the single model output, plus an order/sub-batch oracle.",
     "note": BASE_NOTE + "Partial: tokio's scheduling of spawned tasks is sampled by real multi-thread runs, not enumerated.",
 }
+CLAIMS["C13"] = {
+    "text": "Proved in Lean (record level, full strength for the repaired rule): for every record reachable by any sequence of "
+            "write_to_storage calls — repeated writes within one epoch and the epoch-preserving decompression rewrite included — and "
+            "EVERY target epoch t, however far behind, determine_node_to_get returns the version that was current at t or an "
+            "error, never a newer one (snapshot_read with write_preserves / write_new / write_frame); so a request that fixes its "
+            "target epoch once reads the tree of that epoch or fails. The pinned rule was wrong at lag >= 2 (lag2_witness, defect "
+            "D4, repaired). Tied to the Rust by runs with read-only instances lagging 0..3 epochs, compared with the model and "
+            "judged by the published-epoch-hash oracle. PARTIAL: the clauses about requests interleaved with a commit at "
+            "storage-operation granularity (the per-update re-read of the epoch record in key_history, cache fills racing a commit) "
+            "and about change polling are not decided by this check yet.",
+    "note": BASE_NOTE + "Sequential lag only; concurrency clauses pending the deterministic scheduler.",
+}
 NOT_YET = {}
